@@ -8,56 +8,73 @@
 EXTENDS Integers, Sequences, FiniteSets, TLC, Json
 
 Trace == ndJsonDeserialize("trace.ndjson")
-VARIABLES l, cfg, phase, lo, hi, tlo, thi, evals, iters, fmin, fmax
-vars == <<l, cfg, phase, lo, hi, tlo, thi, evals, iters, fmin, fmax>>
+VARIABLES l, cfg, phase, lo, hi, tlo, thi, evals, iters, fmin, fmax, xcur, trials
+vars == <<l, cfg, phase, lo, hi, tlo, thi, evals, iters, fmin, fmax, xcur, trials>>
 E == Trace[l]
 Is(k) == l <= Len(Trace) /\ E.ev = k
 Adv == l' = l + 1
 
 Init == /\ l = 1 /\ cfg = [zero |-> 0] /\ phase = "idle" /\ lo = 0 /\ hi = 0 /\ tlo = 0 /\ thi = 0
-        /\ evals = {} /\ iters = 0 /\ fmin = 0 /\ fmax = 0
+        /\ evals = {} /\ iters = 0 /\ fmin = 0 /\ fmax = 0 /\ xcur = 0 /\ trials = {}
 
 Start == /\ Is("start") /\ phase \in {"idle", "returned"}
          /\ E.min <= E.init /\ E.init <= E.max                 \* the driver's precondition
          /\ cfg' = E /\ phase' = "init1" /\ lo' = E.min /\ hi' = E.max /\ tlo' = E.min /\ thi' = E.max
-         /\ evals' = {} /\ iters' = 0 /\ fmin' = 0 /\ fmax' = 0 /\ Adv
+         /\ evals' = {} /\ iters' = 0 /\ fmin' = 0 /\ fmax' = 0 /\ xcur' = E.init /\ trials' = {} /\ Adv
 
 \* the three evaluations before the loop: initial guess, upper end, lower end
 EvalInit ==
     /\ Is("eval") /\ phase \in {"init1", "init2", "init3"}
     /\ E.x = (CASE phase = "init1" -> cfg.init [] phase = "init2" -> cfg.max [] phase = "init3" -> cfg.min)
-    /\ evals' = evals \cup {<<E.x, E.fx>>}
+    /\ evals' = evals \cup {<<E.x, E.fx, E.afx>>}
     /\ fmax' = IF phase = "init2" THEN E.fx ELSE fmax
     /\ fmin' = IF phase = "init3" THEN E.fx ELSE fmin
     /\ phase' = (CASE phase = "init1" -> "init2" [] phase = "init2" -> "init3" [] phase = "init3" -> "loop")
     \* bracketed root (the driver's precondition): f(min) <= 0 <= f(max)
     /\ (phase = "init3" => (E.fx <= cfg.zero /\ fmax >= cfg.zero))
-    /\ UNCHANGED <<cfg, lo, hi, tlo, thi, iters>> /\ Adv
+    /\ UNCHANGED <<cfg, lo, hi, tlo, thi, iters, xcur, trials>> /\ Adv
+
+\* the end of the bracket the search continues from: the lower end unless the upper end's value is smaller
+\* in magnitude (|f(lo)| <= f(hi) keeps lo)
+EvalAt(x) == CHOOSE e \in evals : e[1] = x
+BetterEnd(a, b) == IF EvalAt(a)[3] <= EvalAt(b)[2] THEN a ELSE b
 
 \* an iteration starts (the derivative is asked once per iteration): the trial bracket becomes the bracket
 Deriv == /\ Is("deriv") /\ phase = "loop"
          /\ lo' = tlo /\ hi' = thi /\ iters' = iters + 1
+         \* the search continues from the better end of the bracket the previous iteration left
+         /\ xcur' = IF iters = 0 THEN xcur ELSE BetterEnd(tlo, thi)
+         /\ E.x = xcur'                      \* ... and that is where the derivative is asked
+         /\ trials' = {}
+         /\ iters < cfg.maxiter              \* never more iterations than the budget
          /\ UNCHANGED <<cfg, phase, tlo, thi, evals, fmin, fmax>> /\ Adv
 
 \* a trial evaluation: inside the bracket of this iteration; the trial bracket tightens by the sign rule
 EvalTrial ==
     /\ Is("eval") /\ phase = "loop"
     /\ (IF cfg.hasdx THEN lo <= E.x /\ E.x <= hi ELSE cfg.min <= E.x /\ E.x <= cfg.max)
-    /\ evals' = evals \cup {<<E.x, E.fx>>}
+    /\ evals' = evals \cup {<<E.x, E.fx, E.afx>>}
+    /\ trials' = trials \cup {E.x}
     /\ IF E.fx < cfg.zero
        THEN /\ tlo' = (IF E.x > tlo /\ E.x <= thi THEN E.x ELSE tlo) /\ thi' = thi
        ELSE /\ thi' = (IF E.x < thi /\ E.x >= tlo THEN E.x ELSE thi) /\ tlo' = tlo
-    /\ UNCHANGED <<cfg, phase, lo, hi, iters, fmin, fmax>> /\ Adv
+    /\ UNCHANGED <<cfg, phase, lo, hi, iters, fmin, fmax, xcur>> /\ Adv
 
+Near(a, b) == a = b \/ \E i \in 1..Len(cfg.near) : cfg.near[i] = <<a, b>> \/ cfg.near[i] = <<b, a>>     \* |a - b| < convergence limit
 Return ==
     /\ Is("return") /\ phase = "loop"
-    /\ <<E.x, E.fx>> \in evals                          \* an evaluated point together with ITS value
+    /\ <<E.x, E.fx, E.afx>> \in evals                   \* an evaluated point together with ITS value
+    \* why the search may stop (only checkable when iterations are delimited by derivative requests):
+    \* the value is below the tolerance, or the iteration budget is used up, or every trial point of the
+    \* last iteration lies within the convergence limit of the point the iteration started from
+    /\ (cfg.hasdx => (E.afx < cfg.tol \/ iters = cfg.maxiter \/ (iters >= 1 /\ \A t \in trials : Near(xcur, t))))
+    /\ (cfg.hasdx => (E.afx < cfg.tol \/ iters = 0 \/ E.x = BetterEnd(tlo, thi)))
     /\ cfg.min <= E.x /\ E.x <= cfg.max
     \* non-decreasing f, at least one iteration: no worse than the better end of the initial bracket
     \* (or already below the tolerance)
     /\ ((cfg.mono /\ iters >= 1) => (E.afx < cfg.tol \/ (E.afx <= E.amin /\ E.afx <= E.amax)))
     /\ phase' = "returned"
-    /\ UNCHANGED <<cfg, lo, hi, tlo, thi, evals, iters, fmin, fmax>> /\ Adv
+    /\ UNCHANGED <<cfg, lo, hi, tlo, thi, evals, iters, fmin, fmax, xcur, trials>> /\ Adv
 
 TraceNext == Start \/ EvalInit \/ Deriv \/ EvalTrial \/ Return
 TraceSpec == Init /\ [][TraceNext]_vars
